@@ -319,6 +319,8 @@ func setKnob(k *IdPKnobs, name, v string) {
 		k.Extra = b
 	case "aud_array":
 		k.AudArray = b
+	case "id_no_exp":
+		k.IDNoExp = b
 	}
 }
 
